@@ -330,7 +330,62 @@ gauss_strategy = case_strategy.map(lambda c: dict(
     c, kind="gauss", gradient=0.0, nan_blocks=[], inf_pixels=[], rows=100 + c["rows"] % 61, cols=100 + c["cols"] % 29,
     grid=[8, 12, 16][c["grid"] % 3], box=[48, 64][c["seed"] % 2]))
 
+# ------------------------------------------------------------------ images stored as integers
+int_strategy = st.fixed_dictionaries({
+    "rows": st.integers(20, 90), "cols": st.integers(20, 90), "grid": st.integers(2, 10), "boxmul": f(1, 4),
+    "cores": st.sampled_from([1, 2]), "dtype": st.sampled_from(["i2", "i4"]),
+    "bscale": st.sampled_from([None, None, 0.5, -2.0]), "bzero": st.sampled_from([None, None, 10.0, -300.0]),
+    "seed": st.integers(0, 2 ** 31 - 1)})
+
+
+def check_int(c):
+    """BITPIX 16 / 32 with or without BSCALE / BZERO: shape, bounds and finiteness (the relations of the main test need
+    continuous-valued data and are not asserted here)"""
+    res = Res()
+    rng = np.random.default_rng(c["seed"])
+    raw = rng.integers(-400, 400, size=(c["rows"], c["cols"])).astype(c["dtype"])
+    d = workdir("c06i_")
+    try:
+        path = os.path.join(d, "im.fits")
+        hdu = fits.PrimaryHDU(raw)
+        for k, v in (("CTYPE1", "RA---SIN"), ("CTYPE2", "DEC--SIN"), ("CRVAL1", 50.0), ("CRVAL2", -20.0),
+                     ("CRPIX1", c["cols"] / 2.0), ("CRPIX2", c["rows"] / 2.0), ("CDELT1", -0.005), ("CDELT2", 0.005)):
+            hdu.header[k] = v
+        hdu.writeto(path, overwrite=True)
+        if c["bscale"] or c["bzero"] is not None:
+            with fits.open(path, mode="update", do_not_scale_image_data=True) as hl:
+                if c["bscale"]:
+                    hl[0].header["BSCALE"] = c["bscale"]
+                if c["bzero"] is not None:
+                    hl[0].header["BZERO"] = c["bzero"]
+        plane = np.asarray(fits.getdata(path), dtype=np.float64)       # physical values as astropy scales them
+        g = c["grid"]
+        box = int(max(4, g, round(g * c["boxmul"])))
+        out = BANE.filter_image(path, out_base=None, step_size=(g, g), box_size=(box, box), cores=c["cores"],
+                                nslice=None if c["cores"] == 1 else c["cores"], mask=True, cube_index=0)
+        what = "%dx%d %s BSCALE=%r BZERO=%r grid=%d box=%d" % (c["rows"], c["cols"], c["dtype"], c["bscale"], c["bzero"], g, box)
+        if out is None:
+            res.bad("int-returned-none", "%s: filter_image returned None" % what)
+            return res
+        bkg, rms = (np.asarray(a, dtype=np.float64) for a in out)
+        lo, hi = float(plane.min()), float(plane.max())
+        tol = 8 * np.finfo(np.float32).eps * max(abs(lo), abs(hi), 1.0)
+        if bkg.shape != plane.shape or rms.shape != plane.shape:
+            res.bad("int-shape", "%s: maps %r / %r" % (what, bkg.shape, rms.shape))
+        elif not (np.all(np.isfinite(bkg)) and np.all(np.isfinite(rms))):
+            res.bad("int-blank-created", "%s: an image without blanks gives %d blank map pixels" % (what, int(np.sum(~np.isfinite(bkg) | ~np.isfinite(rms)))))
+        elif not (bkg.min() >= lo - tol and bkg.max() <= hi + tol and rms.min() >= 0 and rms.max() <= (hi - lo) + tol):
+            res.bad("int-bounds", "%s: background [%r, %r], noise [%r, %r], data [%r, %r]" % (
+                what, float(bkg.min()), float(bkg.max()), float(rms.min()), float(rms.max()), lo, hi))
+        res.nontrivial = bool(c["bscale"] or c["bzero"] is not None)
+        res.label("integer-image")
+    finally:
+        shutil.rmtree(d, ignore_errors=True)
+    return res
+
+
 TESTS = {
+    "intimage": {"strategy": lambda tier: int_strategy, "check": check_int, "n": {"quick": 64, "thorough": 2000}},
     "gaussian": {"strategy": lambda tier: gauss_strategy, "check": check_case,
                  "n": {"quick": 60, "thorough": 2000}},
     "contract": {"strategy": lambda tier: case_strategy, "check": check_case,
